@@ -101,6 +101,8 @@ def astype(self, dt, **k):
     if not A.has_sym(self) and src.kind != "S" and dt.kind != "S":
         with _np.errstate(all="ignore"):
             return A.wrap_real(A.to_real(self).astype(dt))
+    if not A.has_sym(self) and src.kind in "iub" and dt.kind == "S":     # concrete numbers rendered as text (np.arange(n).astype('S'))
+        return A.wrap_real(A.to_real(self).astype(dt))
     if dt == bool:
         return SymArray(A.FP["not_equal"](self.vals, 0) if self.vals.size else self.vals.copy(), dt)
     if src.kind == "f" and dt.kind in "iu":
